@@ -66,6 +66,13 @@ off64_t gd_nframes64(DIRFILE* D)
     GD_RETURN_ERROR(D);
   }
 
+  /* resolve a samples-per-frame given as a scalar field code */
+  if (!(D->reference_field->flags & GD_EN_CALC)) {
+    _GD_CalculateEntry(D, D->reference_field, 1);
+    if (D->error)
+      GD_RETURN_ERROR(D);
+  }
+
   nf /= D->reference_field->EN(raw,spf);
   nf += D->fragment[D->reference_field->fragment_index].frame_offset;
 
